@@ -376,7 +376,7 @@ fn main() {
     for p in spec["lexers"].as_array().cloned().unwrap_or_default() {
         let id = p["id"].as_u64().unwrap();
         let lsrc = std::fs::read_to_string(format!("{here}/gen/x{id}.l")).unwrap();
-        let rt = match p["settings"]["builder_flags"].as_object() {
+        let rt = match p["settings"]["rt_flags"].as_object() {
             None => LRNonStreamingLexerDef::<LT>::from_str(&lsrc),
             Some(fl) => {
                 // flags given through the builder: the run-time counterpart is new_with_options
@@ -398,7 +398,7 @@ fn main() {
                         _ => {}
                     }
                 }
-                bump("lexer-only:flags-through-builder", &mut classes);
+                bump(if p["settings"]["section_and_builder"] == json!(true) { "lexer-only:builder-overrides-section" } else { "lexer-only:flags-through-builder" }, &mut classes);
                 LRNonStreamingLexerDef::<LT>::new_with_options(&lsrc, f)
             }
         };
